@@ -430,6 +430,7 @@ func main() {
 	extractFacts()
 	extractWiring()
 	extractHandOver()
+	extractAuthWiring()
 	if len(failures) > 0 {
 		for _, f := range failures {
 			fmt.Fprintln(os.Stderr, "extract:", f)
